@@ -39,12 +39,18 @@ Apply(op, x, y) ==
     [] op = "and" -> Bool(Truthy(x) /\ Truthy(y)) [] op = "or" -> Bool(Truthy(x) \/ Truthy(y))
     [] op = "neg" -> RNeg(x) [] op = "abs" -> RAbs(x)
 \* the variable holds a; for reflected operators the other operand (b) stands on the left
-Expected(r) == IF r.op \in Reflected THEN Apply(Base(r.op), r.b, r.a) ELSE Apply(r.op, r.a, r.b)
+RECURSIVE WSum(_, _)
+WSum(x, n) == IF n = 0 THEN RZero ELSE RAdd(WSum(x, n - 1), RMul(R(n), RAdd(x, R(n - 1))))
+Expected(r) == IF r.op = "eval" THEN WSum(r.a, r.b[1])
+               ELSE IF r.op \in Reflected THEN Apply(Base(r.op), r.b, r.a) ELSE Apply(r.op, r.a, r.b)
 
 Requests ==
        {[op |-> o, kind |-> k, a |-> x, b |-> y] : o \in Binary, k \in Kinds, x \in Vals, y \in Vals}
   \cup {[op |-> o, kind |-> "scalar", a |-> x, b |-> y] : o \in Reflected, x \in Vals, y \in Vals}
   \cup {[op |-> o, kind |-> "none", a |-> x, b |-> RZero] : o \in Unary, x \in Vals}
+  \* funceval / celleval / faceeval with n = 1..8 variables: f = weighted sum  sum_k k * arg_k,
+  \* argument k holds a + k - 1  (b carries n)
+  \cup {[op |-> "eval", kind |-> "var", a |-> x, b |-> R(n)] : x \in Vals, n \in 1..8}
 
 VARIABLES req, resp, val
 Init == req = [op |-> "none"] /\ resp = "idle" /\ val = RZero
